@@ -1859,6 +1859,12 @@ impl Prop for C08 {
     fn from_bytes(data: &[u8]) -> Option<Case> {
         from_bytes(data)
     }
+    fn fuzz(t: Tier) -> Option<FuzzSpec> {
+        match t {
+            Tier::Quick => None,
+            Tier::Thorough => Some(FuzzSpec { target: "c08_metadata", runs: 1000000, max_len: 1024 }),
+        }
+    }
     fn max_shrink_iters() -> u32 {
         3000
     }
